@@ -197,6 +197,15 @@ func c12TimeWire(st kit.FieldStep, enc bool) (string, bool) {
 
 // c12Classify decides what a step chain does to a value.
 func c12Classify(steps []kit.FieldStep, from, to types.Type, enc bool, codecs map[types.Object]*c12Codec) c12Xform {
+	// conversions to the operand's own type do nothing
+	var kept []kit.FieldStep
+	for _, s := range steps {
+		if s.Kind == "conv" && s.From != nil && s.Type != nil && types.Identical(s.From, s.Type) {
+			continue
+		}
+		kept = append(kept, s)
+	}
+	steps = kept
 	if len(steps) == 0 {
 		return c12Xform{kind: "id"}
 	}
@@ -379,8 +388,8 @@ func c12CheckPair(c *kit.Ctx, p *c12Pair, codecs map[types.Object]*c12Codec) ([]
 			continue
 		}
 		// transforms
-		ex := c12Classify(esrc.Steps, g.Type(), m.Type(), true, codecs)
-		dx := c12Classify(dsrc.Steps, m.Type(), g.Type(), false, codecs)
+		ex := c12ClassifyInl(c, esrc.Steps, g.Type(), m.Type(), true, codecs)
+		dx := c12ClassifyInl(c, dsrc.Steps, m.Type(), g.Type(), false, codecs)
 		switch {
 		case ex.kind == "lossy" || dx.kind == "lossy":
 			v.Status = "violation"
@@ -488,4 +497,340 @@ func c12Uniq(in []string) []string {
 		}
 	}
 	return out
+}
+
+// ---------------------------------------------------------------------------
+// module helpers inside a transform chain
+
+// c12Helper is the summary of a module function with one parameter and one
+// result, used as a conversion helper in a codec (`serialNsToTime(ns)`).
+type c12Helper struct {
+	status string          // "ok" | "lossy" | "unknown"
+	steps  []kit.FieldStep // ok: the transform every return applies to the parameter
+	why    string
+}
+
+var c12HelperMemo = map[*kit.Func]*c12Helper{}
+
+// c12ParamChain traces e back to parameter prm of f: the transform steps
+// (innermost first), whether the value depends on prm at all, and whether the
+// shape is understood.
+func c12ParamChain(f *kit.Func, prm types.Object, e ast.Expr, depth int) (steps []kit.FieldStep, depends, ok bool) {
+	info := f.Info()
+	e = ast.Unparen(e)
+	if depth > 6 {
+		return nil, false, false
+	}
+	if tv, has := info.Types[e]; has && tv.Value != nil {
+		return nil, false, true
+	}
+	switch x := e.(type) {
+	case *ast.Ident:
+		o := kit.ObjOf(info, x)
+		if o == prm {
+			return nil, true, true
+		}
+		if _, isNil := o.(*types.Nil); isNil {
+			return nil, false, true
+		}
+		if v, isVar := o.(*types.Var); isVar && !v.IsField() && v.Pkg() != nil && v.Parent() != v.Pkg().Scope() {
+			if def := c12SingleDef(f, o); def != nil {
+				return c12ParamChain(f, prm, def, depth+1)
+			}
+		}
+		return nil, false, false
+	case *ast.CompositeLit:
+		for _, el := range x.Elts {
+			v := el
+			if kv, isKV := el.(*ast.KeyValueExpr); isKV {
+				v = kv.Value
+			}
+			if _, d, k := c12ParamChain(f, prm, v, depth+1); !k || d {
+				return nil, d, false
+			}
+		}
+		return nil, false, true
+	case *ast.CallExpr:
+		if tv, has := info.Types[x.Fun]; has && tv.IsType() && len(x.Args) == 1 {
+			st, d, k := c12ParamChain(f, prm, x.Args[0], depth+1)
+			if !k {
+				return nil, d, false
+			}
+			if !d {
+				return nil, false, true
+			}
+			return append(st, kit.FieldStep{Kind: "conv", Type: tv.Type, From: info.TypeOf(x.Args[0])}), true, true
+		}
+		callee := kit.Callee(info, x)
+		if _, isFn := callee.(*types.Func); !isFn {
+			return nil, false, false
+		}
+		kind := "call"
+		var inner []kit.FieldStep
+		pos, n := -2, 0
+		var consts []kit.FieldArg
+		if sel, isSel := ast.Unparen(x.Fun).(*ast.SelectorExpr); isSel {
+			if s2, has := info.Selections[sel]; has && s2.Kind() == types.MethodVal {
+				kind = "method"
+				st, d, k := c12ParamChain(f, prm, sel.X, depth+1)
+				if !k {
+					return nil, d, false
+				}
+				if d {
+					inner, pos = st, -1
+					n++
+				}
+			}
+		}
+		for i, a := range x.Args {
+			if cv, isC := kit.ConstInt(info, a); isC {
+				consts = append(consts, kit.FieldArg{Pos: i, Val: cv})
+				continue
+			}
+			st, d, k := c12ParamChain(f, prm, a, depth+1)
+			if !k {
+				return nil, d, false
+			}
+			if d {
+				inner, pos = st, i
+				n++
+			}
+		}
+		switch n {
+		case 0:
+			return nil, false, true // e.g. time.Now(): independent of the parameter
+		case 1:
+			return append(inner, kit.FieldStep{Kind: kind, Callee: callee, Call: x, Arg: pos, Consts: consts}), true, true
+		}
+		return nil, true, false
+	}
+	// anything else that mentions the parameter is not understood
+	mention := false
+	ast.Inspect(e, func(n ast.Node) bool {
+		if id, isId := n.(*ast.Ident); isId && kit.ObjOf(info, id) == prm {
+			mention = true
+		}
+		return !mention
+	})
+	return nil, mention, false
+}
+
+func c12StepsKey(steps []kit.FieldStep) string {
+	var p []string
+	for _, s := range steps {
+		k := s.Kind
+		switch s.Kind {
+		case "conv":
+			k += ":" + s.Type.String()
+		case "call", "method":
+			k += fmt.Sprintf(":%s@%d%v", kit.QualName(s.Callee), s.Arg, s.Consts)
+		}
+		p = append(p, k)
+	}
+	return strings.Join(p, ",")
+}
+
+// c12SummariseHelper decides what fn does to its only parameter on every
+// path.  For an integer parameter the values reaching each return are
+// computed (value-mode interval analysis), so that "returns time.Now() when
+// ns == 0" is a witnessed loss, not a guess.
+func c12SummariseHelper(c *kit.Ctx, fn *kit.Func) *c12Helper {
+	if h := c12HelperMemo[fn]; h != nil {
+		return h
+	}
+	h := &c12Helper{status: "unknown"}
+	c12HelperMemo[fn] = h
+	sig := fn.Signature()
+	ps := fn.Params()
+	if fn.Decl == nil || fn.Body == nil || sig == nil || sig.Recv() != nil || len(ps) != 1 || sig.Variadic() || sig.Results().Len() != 1 {
+		h.why = "helper " + fn.Name + " does not have exactly one parameter and one result"
+		return h
+	}
+	prm := ps[0]
+	c.Analysed(fn)
+	type retInfo struct {
+		ret        *ast.ReturnStmt
+		set        string
+		sample     int64
+		correlated bool
+		haveSet    bool
+	}
+	var rets []retInfo
+	isInt := false
+	if b, ok := prm.Type().Underlying().(*types.Basic); ok && b.Info()&types.IsInteger != 0 {
+		isInt = true
+		lf := &kit.LenFlow{F: fn, X: prm, Value: true, MinLen: kit.LenNegInf}
+		if b.Info()&types.IsUnsigned != 0 {
+			lf.MinLen = 0
+		}
+		lf.Run()
+		if lf.Problem != "" || lf.Result == nil || lf.Result.Overflow {
+			h.why = "helper " + fn.Name + ": " + lf.Problem
+			return h
+		}
+		for _, e := range lf.Result.Exits {
+			if e.Return == nil {
+				h.why = "helper " + fn.Name + " can leave without returning (panic)"
+				return h
+			}
+			set, sample, corr, ok := lf.ValueSet(e.State)
+			if !ok {
+				continue
+			}
+			rets = append(rets, retInfo{e.Return, set, sample, corr, true})
+		}
+	} else {
+		ast.Inspect(fn.Body, func(x ast.Node) bool {
+			switch y := x.(type) {
+			case *ast.FuncLit:
+				return false
+			case *ast.ReturnStmt:
+				rets = append(rets, retInfo{ret: y})
+			}
+			return true
+		})
+	}
+	if len(rets) == 0 {
+		h.why = "helper " + fn.Name + " has no reachable return"
+		return h
+	}
+	key, first := "", true
+	var steps []kit.FieldStep
+	unknown := ""
+	var indep []retInfo
+	for _, r := range rets {
+		if len(r.ret.Results) != 1 {
+			h.why = "helper " + fn.Name + ": naked return"
+			return h
+		}
+		st, depends, ok := c12ParamChain(fn, prm, r.ret.Results[0], 0)
+		switch {
+		case !ok:
+			unknown = fmt.Sprintf("helper %s: `%s` is not understood", fn.Name, fn.Str(r.ret))
+		case !depends:
+			indep = append(indep, r)
+		default:
+			k := c12StepsKey(st)
+			if first {
+				key, steps, first = k, st, false
+			} else if k != key {
+				unknown = fmt.Sprintf("helper %s applies different transforms on different paths (%s vs %s)", fn.Name, key, k)
+			}
+		}
+	}
+	// returns whose value ignores the argument
+	info := fn.Info()
+	for _, r := range indep {
+		e := ast.Unparen(r.ret.Results[0])
+		single := r.haveSet && !strings.Contains(r.set, "..") && !strings.Contains(r.set, ",")
+		lossy := func(when string) *c12Helper {
+			h.status = "lossy"
+			h.why = fmt.Sprintf("helper %s returns %s, which does not depend on its argument, %s (at %s): e.g. the wire value %d does not decode to the value that was encoded",
+				fn.Name, fn.Str(e), when, fn.At(r.ret), r.sample)
+			return h
+		}
+		switch {
+		case isInt && r.haveSet && !r.correlated && !single:
+			// one result for several distinct arguments: not injective
+			return lossy(fmt.Sprintf("for every %s in {%s}", prm.Name(), r.set))
+		case isInt && r.haveSet && !r.correlated && single:
+			// a special case for exactly one value: harmless iff it equals the general transform at that value
+			// general transform: optional 64-bit integer conversions, then one call
+			var last kit.FieldStep
+			shapeOK := len(steps) > 0 && unknown == ""
+			for i, st := range steps {
+				if i == len(steps)-1 {
+					last = st
+					shapeOK = shapeOK && st.Kind == "call"
+				} else if cl, bits := c12Bits(st.Type); st.Kind != "conv" || cl != "int" || bits != 64 {
+					shapeOK = false
+				}
+			}
+			if call, ok := e.(*ast.CallExpr); ok && shapeOK && kit.Callee(info, call) == last.Callee && len(call.Args) == len(last.Consts)+1 {
+				steps0 := []kit.FieldStep{last}
+				same := true
+				for i, a := range call.Args {
+					v, isC := kit.ConstInt(info, a)
+					if !isC {
+						same = false
+						break
+					}
+					want, found := int64(0), false
+					if i == steps0[0].Arg {
+						want, found = r.sample, true
+					}
+					for _, cst := range steps0[0].Consts {
+						if cst.Pos == i {
+							want, found = cst.Val, true
+						}
+					}
+					if !found || v != want {
+						same = false
+					}
+				}
+				if same {
+					continue
+				}
+			}
+			impure := false
+			ast.Inspect(e, func(n ast.Node) bool {
+				if call, ok := n.(*ast.CallExpr); ok && kit.CallIs(info, call, "time.Now", "time.Since", "math/rand.Int63", "math/rand.Int") {
+					impure = true
+				}
+				return !impure
+			})
+			if impure {
+				return lossy(fmt.Sprintf("when %s == %s", prm.Name(), r.set))
+			}
+			unknown = fmt.Sprintf("helper %s: `%s` replaces the result for %s == %s by a value that cannot be compared with the general transform", fn.Name, fn.Str(r.ret), prm.Name(), r.set)
+		case !isInt && len(rets) == 1:
+			h.status = "lossy"
+			h.why = fmt.Sprintf("helper %s always returns %s, which does not depend on its argument", fn.Name, fn.Str(e))
+			return h
+		default:
+			unknown = fmt.Sprintf("helper %s: `%s` ignores the argument under a condition that is not decided", fn.Name, fn.Str(r.ret))
+		}
+	}
+	if unknown != "" {
+		h.why = unknown
+		return h
+	}
+	if first {
+		h.why = "helper " + fn.Name + ": no return depends on the argument"
+		return h
+	}
+	h.status, h.steps = "ok", steps
+	return h
+}
+
+// c12ClassifyInl replaces calls of one-parameter module helpers in the chain
+// by their summary, then classifies.
+func c12ClassifyInl(c *kit.Ctx, steps []kit.FieldStep, from, to types.Type, enc bool, codecs map[types.Object]*c12Codec) c12Xform {
+	for round := 0; round < 4; round++ {
+		changed := false
+		var out []kit.FieldStep
+		for _, st := range steps {
+			if st.Kind == "call" && st.Arg == 0 && st.Result == 0 && len(st.Consts) == 0 && codecs[st.Callee] == nil {
+				if fn := c.P.FuncOf(st.Callee); fn != nil && fn.Body != nil {
+					h := c12SummariseHelper(c, fn)
+					switch h.status {
+					case "lossy":
+						return c12Xform{kind: "lossy", why: h.why}
+					case "ok":
+						out = append(out, h.steps...)
+						changed = true
+						continue
+					default:
+						return c12Xform{kind: "unknown", why: h.why}
+					}
+				}
+			}
+			out = append(out, st)
+		}
+		steps = out
+		if !changed {
+			break
+		}
+	}
+	return c12Classify(steps, from, to, enc, codecs)
 }
